@@ -2245,10 +2245,25 @@ def property_templates(pid):
     return T.get(pid, [])
 
 
+_RAN = []      # names of the templates run in this process (replay_all does not repeat them)
+
+
+def _tracked(fn):
+    import functools
+
+    @functools.wraps(fn)
+    def run(req):
+        _RAN.append(fn.__name__)
+        return fn(req)
+    return run
+
+
 def replay_all(req):
     pid = req.get('property')
     total, per = 0, {}
     for t in property_templates(pid):
+        if t.__name__ in _RAN:
+            continue
         r = t(dict(req, func='', label=''))
         per[t.__name__] = r.get('evaluations', 0)
         total += r.get('evaluations', 0) or 0
@@ -2382,3 +2397,10 @@ def foreign_cases(req):
         finally:
             shutil.rmtree(base, ignore_errors=True)
     return {'reproduced': False, 'evaluations': n}
+
+
+for _n in ('created_files_search', 'refusal_cases', 'fence_cases', 'aliasing_cases',
+           'failed_setup_cases', 'view_cases', 'effectiveness_cases', 'failed_reuse_case',
+           'rollback_cases', 'identity_cases', 'comparison_cases', 'transparency_cases',
+           'version_cases', 'clean_cases', 'foreign_cases'):
+    globals()[_n] = _tracked(globals()[_n])
